@@ -164,6 +164,46 @@ def check_four(ctx, base, s, case, outs):
         ctx.fail("bool", "to_bool(%r) = %s" % (s, b), [case], [b], e or "refusal")
 
 
+def ref_prefix(d, start, signs):
+    """reference prefix parse: optional sign (one of `signs`) only when start is None; returns (neg, value, rest, ndigits, signed)"""
+    neg = signed = False
+    body = d
+    if start is None and d[:1] in signs and d[:1]:
+        signed, neg, body = True, d[:1] == b"-", d[1:]
+    n = 0
+    while n < len(body) and 48 <= body[n] <= 57:
+        n += 1
+    v = int(b"%d" % (start or 0) + body[:n]) if n else (start or 0)
+    return neg, v, body[n:], n, signed
+
+
+def run_prefix(ctx, base, strs):
+    """to_u64_t / to_i64_t (anchor mechanism; pub(crate), reached through the verif hooks): state-machine model AND spec"""
+    rng = ctx.rng
+    cases = []
+    for s in strs:
+        h = hexs(s)
+        cases += ["scalar.i64t\t" + h, "c11.i64t\t" + h]
+        for st in (0, rng.choice([1, 9, 1844674407370955161, 1844674407370955162, base.U64_MAX, rng.randrange(2 ** 64)])):
+            cases += ["scalar.u64t\t%s\t%d" % (h, st), "c11.u64t\t%s\t%d" % (h, st)]
+    impl, _ = ctx.correspond("prefix", cases, nontrivial=lambda c, i: True)
+    off = len(impl) - len(cases)
+    for k, c in enumerate(cases):
+        out = impl[off + k]
+        f = c.split("\t")
+        s = unhex(f[1])
+        if f[0].endswith("i64t"):
+            neg, v, rest, n, signed = ref_prefix(s, None, (b"-", b"+"))
+            want = None if (not s or (n == 0 and not signed) or v > base.I64_MAX) else "%d %s" % (-v if neg else v, hexs(rest))
+        else:
+            st = int(f[2])
+            _, v, rest, n, _ = ref_prefix(s, st, ())
+            want = None if (n == 0 or v > base.U64_MAX) else "%d %s" % (v, hexs(rest))
+        if out in ("PANIC", "ABORT", "HANG") or (want is None) != out.startswith("ERR") or (want is not None and out != want):
+            ctx.fail("prefix-parse", "%s(%r%s) = %s" % (f[0].split(".")[1], s, ", start=" + f[2] if len(f) > 2 else "", out), [c], [out], want or "refusal")
+    ctx.count("prefix_strings", len(strs))
+
+
 def run_more(ctx, base):
     rng = ctx.rng
     # ---- 1. spec functions vs the four conversions
@@ -201,6 +241,11 @@ def run_more(ctx, base):
     ctx.count("spec_strings", len(strs))
     ctx.count("spec_bool_strings", len(bools))
 
+    # ---- 1b. the prefix parsers on a sample of the same strings (+ date-like tails)
+    samp = [strs[k] for k in range(0, len(strs), 9)] + [b"1444.11.11", b"-5.1.1", b"+12.5", b"007x", b"18446744073709551615.1",
+            b"18446744073709551616.1", b"9223372036854775807-", b"9223372036854775808-", b"-9223372036854775808", b"", b"-", b"+", b".", b"x"]
+    run_prefix(ctx, base, samp)
+
     # ---- 2. every length 0..24 at every alignment
     cases = at_cases(ctx, rng)
     impl, _ = ctx.correspond("at", cases, nontrivial=lambda c, i: True)
@@ -219,7 +264,13 @@ def run_more(ctx, base):
     ps = pub_strings(rng, ctx.scale(400, 4000))
     cases = []
     for a in ps:
-        for b in (a, a + b" ", a[:-1] if a else b"x", rng.choice(ps)):
+        others = [a, a + b" ", a[:-1] if a else b"x", rng.choice(ps)]
+        if a:
+            # same length, one byte different: the last one, and a random one
+            others.append(a[:-1] + bytes([a[-1] ^ 1]))
+            q = rng.randrange(len(a))
+            others.append(a[:q] + bytes([a[q] ^ 0x20]) + a[q + 1:])
+        for b in others:
             cases.append("c11.pub\t%s\t%s" % (hexs(a), hexs(b)))
     ncmp = len(cases)
     errs = sorted(refused_forms() | {b"12", b"-12", b"1.5", b"9007199254740993", b"-9007199254740993", b"18446744073709551616", b"yes", b"no"})
